@@ -126,6 +126,13 @@ func handleMsgUpdateServiceBinding(ctx sdk.Context, k keeper.Keeper, msg *types.
 }
 
 func handleMsgSetWithdrawAddress(ctx sdk.Context, k keeper.Keeper, msg *types.MsgSetWithdrawAddress) (*sdk.Result, error) {
+	// earnings withdrawn into the deposit or the request account would sit there next to
+	// the deposits and escrowed fees without belonging to either
+	if msg.WithdrawAddress.Equals(k.GetServiceDepositAccount(ctx).GetAddress()) ||
+		msg.WithdrawAddress.Equals(k.GetServiceRequestAccount(ctx).GetAddress()) {
+		return nil, sdkerrors.Wrap(sdkerrors.ErrInvalidAddress, "the withdrawal address must not be an account of the service module")
+	}
+
 	k.SetWithdrawAddress(ctx, msg.Owner, msg.WithdrawAddress)
 
 	ctx.EventManager().EmitEvents(sdk.Events{
